@@ -296,11 +296,88 @@ def encoder_on_all_paths(fn, is_encoded):
     return True, ""
 
 
+def e5d(ctx):
+    """Same-node forwarding must not re-enable the node's edit."""
+    from ..callgraph import CallGraph
+    from .c13 import redispatch_targets
+    m = ctx.model
+    ctx.rule("E5d", "an edit is rendered once: GraphtageFormatter.print dispatches a node's edit before it selects a node "
+                    "handler, and Replace/Match/Remove/Insert.print ask for their nodes with with_edits=False; a print_<Class> "
+                    "handler of a sequence formatter that forwards the node it was given to another formatter's print() must "
+                    "pass with_edits=False, whenever the protocol can select that handler for an item of a collection the "
+                    "same formatter prints (items are printed through self.print(printer, edit)) - otherwise the item's own "
+                    "edit is printed a second time and the new value appears twice")
+    TREE = "graphtage.tree.TreeNode"
+    bt = m.func("graphtage.json.build_tree")
+    cg = CallGraph(m)
+    _, inst = cg.reachable([bt], set())
+    nodes = sorted(q for q in inst if q in m.classes and m.is_subclass(q, TREE) and not m.is_abstract(q))
+    if len(nodes) < 5:
+        ctx.inconclusive("E5d", bt.file, "build_tree", bt.node, "node classes", f"only {len(nodes)} node classes found reachable from json.build_tree")
+        return
+    fmts, default = m.formatter_registry()
+    jq = m.find_class("JSONFormatter")
+    root = default.get(jq)
+    if root is None:
+        ctx.inconclusive("E5d", "graphtage/json.py", "JSONFormatter", None, "default instance", "JSONFormatter.DEFAULT_INSTANCE not modelled")
+        return
+    MAP, KVP, SEQ = m.need_class("MappingNode"), m.need_class("KeyValuePairNode"), m.need_class("SequenceNode")
+    SF = m.need_class("SequenceFormatter")
+
+    def elements(y):
+        if m.is_subclass(y, MAP):
+            return [q for q in nodes if m.is_subclass(q, KVP)]
+        return nodes
+    n = 0
+    for S in root.walk():
+        if not m.is_subclass(S.q, SF):
+            continue
+        selected = {}
+        for x in nodes:
+            r = m.get_formatter(m.node_mro_names(x, True), S)
+            if r is not None and r[0] is S:
+                selected[x] = r[1]
+        fwd = {}
+        for hname in set(selected.values()):
+            h = m.method(S.q, hname)
+            if h is None or not redispatch_targets(h):
+                continue
+            calls = [c for c in walk_no_nested(h.node) if isinstance(c, ast.Call) and isinstance(c.func, ast.Attribute)
+                     and c.func.attr == "print" and "parent" in ast.unparse(c.func.value)]
+            safe = all(any(k.arg == "with_edits" and isinstance(k.value, ast.Constant) and k.value.value is False for k in c.keywords)
+                       or (len(c.args) >= 3 and isinstance(c.args[2], ast.Constant) and c.args[2].value is False) for c in calls)
+            fwd[hname] = (h, calls, safe)
+        if not fwd:
+            continue
+        containers = [y for y, hn in selected.items() if hn not in fwd and m.is_subclass(y, SEQ)]
+        for hname, (h, calls, safe) in sorted(fwd.items()):
+            n += 1
+            hit = [(y, x) for y in containers for x in elements(y) if selected.get(x) == hname]
+            key = f"{S.name}.{hname}"
+            if not hit:
+                ctx.proved("E5d", h.file, h.short, calls[0], key, f"{key} forwards the node to its parent formatter, but under {S.name} it is "
+                           f"never selected for an item of a collection {S.name} prints (JSON-built node classes)", nontrivial=False)
+            elif safe:
+                ctx.proved("E5d", h.file, h.short, calls[0], key, f"{key} forwards with with_edits=False "
+                           f"(selected e.g. for a {hit[0][1].rsplit('.', 1)[-1]} inside a {hit[0][0].rsplit('.', 1)[-1]})")
+            else:
+                y, x = hit[0]
+                ctx.violation("E5d", h.file, h.short, calls[0], key,
+                              f"{key} forwards the node it was given with `{norm(calls[0], 60)}` (with_edits defaults to True); under "
+                              f"{S.name} the protocol selects it for a {x.rsplit('.', 1)[-1]} that is an item of a {y.rsplit('.', 1)[-1]}: when "
+                              f"that item is replaced, Replace.print asks for the old value without edits, this handler re-enables "
+                              f"them, and the replacement is printed twice (`[{{\"k\": 1}}] -> [12]` renders `{{...}} -> 12 -> 12`), so "
+                              f"deleting what is marked removed no longer leaves the second document")
+    ctx.floor("E5d", n, 1, "same-node forwarding handlers of JSON sequence formatters")
+
+
 def run(ctx):
     from . import c01
     c01.r01d(ctx)     # the script the marks are drawn from accounts for every pair of a keyed mapping
     c01.r01a(ctx)     # ... and for every element of a positional list edit
+    c01.r01b(ctx)     # ... and an ordered-list edit trims, aligns and re-emits every element exactly once
     e10(ctx)
     e9_json(ctx)
+    e5d(ctx)
     ctx.assume("that the rendered text actually parses back to the two documents is a property of output values over all "
                "strings and is NOT decided; only the structural necessary conditions are")
